@@ -164,10 +164,62 @@ def search(item, seed):
             why = f"raised {type(ex).__name__}: {ex}"
         if why:
             return dict(function="filter", input=dict(objects=objs, is_gt=is_gt, params=p, ego=ego, results=results, earlier_ego=earlier), observed=why)
+    # the other label family (traffic lights, 2-D objects): label, confidence and attribute criteria with `unknown` as a target label
+    for _ in range(budget(200)):
+        case = gen_tl(rnd)
+        try:
+            why = check_tl(case)
+        except Exception as ex:
+            why = f"raised {type(ex).__name__}: {ex}"
+        if why:
+            return dict(function="traffic-light filter", input=case, observed=why)
     return None
 
 
+def check_tl(case):
+    """2-D traffic-light estimates / ground truths filtered by label, confidence and ignored attributes with `unknown` among the target labels: an unknown-labelled
+    object is then an ordinary object of its label (the relaxation is for unknown when it is NOT a target), judged against that label's own entries"""
+    from perception_eval.common.label import Label, TrafficLightLabel
+    from perception_eval.common.object2d import DynamicObject2D
+    from perception_eval.common.schema import FrameID
+    from perception_eval.evaluation.matching.objects_filter import filter_objects
+    L = {m.value: m for m in TrafficLightLabel}
+    objs = [DynamicObject2D(unix_time=100, frame_id=FrameID.CAM_TRAFFIC_LIGHT, semantic_score=(1.0 if case["is_gt"] else d["score"]),
+                            semantic_label=Label(L[d["label"]], d["label"], list(d["attrs"])), roi=(0, 0, 10, 10), uuid=d["uuid"]) for d in case["objs"]]
+    targets = [L[n] for n in case["targets"]]
+    kw = {}
+    if case["conf"] is not None:
+        kw["confidence_threshold_list"] = list(case["conf"])
+    if case["ignore"] is not None:
+        kw["ignore_attributes"] = list(case["ignore"])
+    kept = filter_objects(objs, is_gt=case["is_gt"], target_labels=targets, **kw)
+    want = []
+    for d, o in zip(case["objs"], objs):
+        ok = d["label"] in case["targets"]
+        if ok and case["ignore"] is not None and any(a in x for a in case["ignore"] for x in d["attrs"]):
+            ok = False
+        if ok and case["conf"] is not None and not case["is_gt"]:
+            ok = d["score"] > case["conf"][case["targets"].index(d["label"])]
+        if ok:
+            want.append(o)
+    if len(kept) != len(want) or any(a is not b for a, b in zip(kept, want)):
+        return (f"traffic-light {'ground truths' if case['is_gt'] else 'estimates'}, targets {case['targets']}, confidence {case['conf']}, ignored {case['ignore']}: "
+                f"kept {[o.uuid for o in kept]}, the statement keeps {[o.uuid for o in want]}")
+    return None
+
+
+def gen_tl(rnd):
+    targets = rnd.choice([["green", "red", "unknown"], ["unknown", "green"], ["red", "unknown", "yellow"]])
+    objs = [dict(label=rnd.choice(["green", "red", "unknown", "unknown", "yellow"]), score=rnd.choice([0.05, 0.3, 0.5, 0.7, 0.9]),
+                 attrs=rnd.choice([[], [], ["occluded"], ["blinking"]]), uuid=f"o{i}") for i in range(rnd.randint(1, 5))]
+    return dict(targets=targets, objs=objs, is_gt=rnd.random() < 0.3,
+                conf=rnd.choice([None, [rnd.choice([0.1, 0.4, 0.8]) for _ in targets]]), ignore=rnd.choice([None, ["occluded"], ["occluded", "blinking"]]))
+
+
 def replay(payload):
+    if payload.get("function") == "traffic-light filter":
+        why = check_tl(payload["input"])
+        return (why is None, why or "ok")
     i = payload["input"]
     try:
         why = check_case(i["objects"], i["is_gt"], i["params"], i["ego"], [tuple(r) for r in i["results"]], i.get("earlier_ego"))
